@@ -4,7 +4,7 @@ from props import common
 
 FLAT = ["Point", "Line", "HalfLine", "Segment", "Plane"]
 POLYH = ["tet", "tet2", "cube", "box", "obl", "prism", "pyr", "octa", "wedge", "pprism", "ppyr", "hprism"]
-POLYG = ["tri", "triObl", "sq", "rectObl", "trap", "par", "pent", "pentObl", "hex", "hexObl"]
+POLYG = ["tri", "triObl", "sq", "rectObl", "trap", "par", "pent", "pentObl", "hex", "hexObl", "stripH", "stripV", "triUp", "triDown"]
 INVS = ["BodyOK", "Typed", "InBoth", "AnalyticEqGeneric", "ProbesAgree", "HitsSound", "L2Refines", "Emit"]
 
 
